@@ -1,4 +1,294 @@
 package main
 
-func hist(in, out string)  {}
-func record08(out string) {}
+// C08: call histories on real payload buffers.  Every call is logged with copies of the payload (message),
+// the key and the result taken before and after; no comparison is made here except "did the bytes change"
+// inside the full guard cube, whose 2 x 256 x 65 536 calls are logged as one event per (call, algorithm).
+
+import (
+	"bytes"
+	"encoding/json"
+	"math/rand"
+	"os"
+
+	"verifharness/internal/ev"
+
+	"github.com/free5gc/nas/security"
+)
+
+// HOp is one operation of a history (chosen by TLC: MC_C08_gen, or by the seeded recorder).
+type HOp struct {
+	Op     string `json:"op"`
+	Cell   int    `json:"cell"`
+	Alg    int    `json:"alg"`
+	Key    int    `json:"key"` // identifier: 0 zero, 1 ones, >= 2 seeded random
+	Cnt    int    `json:"cnt"`
+	Bearer int    `json:"bearer"`
+	Dir    int    `json:"dir"`
+	Len    int    `json:"len"`
+	Pat    int    `json:"pat"` // payload = Len-octet prefix of base sequence Pat (0 zero, 1 ones, >= 2 seeded random)
+	Nil    bool   `json:"nil"`
+	// exact material (re-run of an observed history); overrides the identifiers
+	KeyB  []int `json:"keyb,omitempty"`
+	CntB  []int `json:"cntb,omitempty"`
+	DataB []int `json:"datab,omitempty"`
+}
+
+// Ev8 is one observed event of a history; every event carries every key, "op" first.
+type Ev8 struct {
+	Op       string `json:"op"`
+	Cell     int    `json:"cell"`
+	Alg      int    `json:"alg"`
+	Key      []int  `json:"key"`
+	Cnt      []int  `json:"cnt"`
+	Bearer   int    `json:"bearer"`
+	Dir      int    `json:"dir"`
+	Nil      bool   `json:"nil"`
+	Before   []int  `json:"before"`
+	After    []int  `json:"after"`
+	KeyAfter []int  `json:"key_after"`
+	Mac      []int  `json:"mac"`
+	MacNil   bool   `json:"macnil"`
+	Err      bool   `json:"err"`
+	Panic    bool   `json:"panic"`
+	Pfn      string `json:"pfn"`
+	Plib     bool   `json:"plib"`
+	Call     string `json:"call"`
+	Acc      []int  `json:"acc"`
+	Chg      []int  `json:"chg"`
+	Pan      []int  `json:"pan"`
+}
+
+func blank(op string) Ev8 {
+	return Ev8{Op: op, Key: []int{}, Cnt: []int{}, Before: []int{}, After: []int{}, KeyAfter: []int{}, Mac: []int{}, Acc: []int{}, Chg: []int{}, Pan: []int{}}
+}
+
+type world struct {
+	rng   *rand.Rand
+	w     *ev.Writer
+	keys  map[int][]byte
+	cnts  map[int][]byte
+	bases map[int][]byte
+	cells map[int][]byte // the real payload buffers (nil slice = nil payload)
+}
+
+func newWorld(rng *rand.Rand, w *ev.Writer) *world {
+	return &world{rng: rng, w: w, keys: map[int][]byte{}, cnts: map[int][]byte{}, bases: map[int][]byte{}, cells: map[int][]byte{}}
+}
+
+func (s *world) material(m map[int][]byte, id, n int) []byte {
+	if b, ok := m[id]; ok && len(b) >= n {
+		return b
+	}
+	b := make([]byte, n)
+	switch id {
+	case 0:
+	case 1:
+		for i := range b {
+			b[i] = 0xff
+		}
+	default:
+		old := m[id]
+		copy(b, old)
+		s.rng.Read(b[len(old):]) // extend, keeping the prefix: patterns are prefix-closed
+	}
+	m[id] = b
+	return b
+}
+
+func (s *world) reset() {
+	s.cells = map[int][]byte{}
+	s.w.Emit(blank("TraceReset"))
+}
+
+func (s *world) do(o HOp) {
+	e := blank(o.Op)
+	e.Cell, e.Alg, e.Bearer, e.Dir = o.Cell, o.Alg, o.Bearer, o.Dir
+	switch o.Op {
+	case "Load":
+		if o.Nil {
+			s.cells[o.Cell] = nil
+			e.Nil = true
+		} else {
+			var p []byte
+			if o.DataB != nil {
+				p = ev.Bytes(o.DataB)
+			} else {
+				p = append([]byte{}, s.material(s.bases, o.Pat, o.Len)[:o.Len]...)
+			}
+			s.cells[o.Cell] = p
+			e.Before, e.After = ev.Ints(p), ev.Ints(p)
+		}
+		s.w.Emit(e)
+		return
+	case "Encrypt", "Mac":
+	default:
+		ev.Fatal("unknown history op %q", o.Op)
+	}
+	var key [16]byte
+	if o.KeyB != nil {
+		copy(key[:], ev.Bytes(o.KeyB))
+	} else {
+		copy(key[:], s.material(s.keys, o.Key, 16))
+	}
+	cb := s.material(s.cnts, o.Cnt, 4)
+	if o.CntB != nil {
+		cb = ev.Bytes(o.CntB)
+	}
+	count := uint32(cb[0])<<24 | uint32(cb[1])<<16 | uint32(cb[2])<<8 | uint32(cb[3])
+	buf, ok := s.cells[o.Cell]
+	if !ok {
+		ev.Fatal("history uses cell %d before loading it", o.Cell)
+	}
+	keyBefore := key
+	e.Key, e.Cnt = ev.Ints(keyBefore[:]), ev.Ints(cb)
+	e.Nil = buf == nil
+	e.Before = ev.Ints(buf)
+	var err error
+	var mac []byte
+	pi := ev.Guard(func() {
+		if o.Op == "Encrypt" {
+			err = security.NASEncrypt(uint8(o.Alg), key, count, uint8(o.Bearer), uint8(o.Dir), buf)
+		} else {
+			mac, err = security.NASMacCalculate(uint8(o.Alg), key, count, uint8(o.Bearer), uint8(o.Dir), buf)
+		}
+	})
+	e.After = ev.Ints(buf)
+	e.KeyAfter = ev.Ints(key[:])
+	e.MacNil = mac == nil
+	e.Mac = ev.Ints(mac)
+	if pi != nil {
+		e.Panic, e.Pfn, e.Plib = true, pi.Fn, pi.Lib
+	} else {
+		e.Err = err != nil
+	}
+	s.w.Emit(e)
+}
+
+func hist(in, out string) {
+	b, err := os.ReadFile(in)
+	if err != nil {
+		ev.Fatal("%v", err)
+	}
+	var hs [][]HOp
+	if err := json.Unmarshal(b, &hs); err != nil {
+		ev.Fatal("%v", err)
+	}
+	s := newWorld(ev.Rng(), ev.Create(out))
+	for _, h := range hs {
+		s.reset()
+		for _, o := range h {
+			s.do(o)
+		}
+	}
+	s.w.Close()
+}
+
+// cube runs one (call, algorithm) slice of the guard cube: every bearer 0..255 x direction 0..255.
+func (s *world) cube(call string, alg int) {
+	e := blank("Cube")
+	e.Call, e.Alg = call, alg
+	var key [16]byte
+	s.rng.Read(key[:])
+	count := s.rng.Uint32()
+	e.Key = ev.Ints(key[:])
+	e.Cnt = []int{int(count >> 24), int(count >> 16 & 255), int(count >> 8 & 255), int(count & 255)}
+	orig := []byte{0x5a, 0x01, 0xfe, 0xa5, 0x33}
+	e.Before = ev.Ints(orig)
+	buf := make([]byte, len(orig))
+	for b := 0; b < 256; b++ {
+		for d := 0; d < 256; d++ {
+			copy(buf, orig)
+			var err error
+			pi := ev.Guard(func() {
+				if call == "Encrypt" {
+					err = security.NASEncrypt(uint8(alg), key, count, uint8(b), uint8(d), buf)
+				} else {
+					_, err = security.NASMacCalculate(uint8(alg), key, count, uint8(b), uint8(d), buf)
+				}
+			})
+			code := b*256 + d
+			if pi != nil {
+				e.Pan = append(e.Pan, code)
+				continue
+			}
+			if err == nil {
+				e.Acc = append(e.Acc, code)
+			}
+			if !bytes.Equal(buf, orig) {
+				e.Chg = append(e.Chg, code)
+			}
+		}
+	}
+	e.After = ev.Ints(orig)
+	s.w.Emit(e)
+}
+
+func record08(out string) {
+	rng := ev.Rng()
+	s := newWorld(rng, ev.Create(out))
+	// the full guard cube
+	s.reset()
+	for alg := 0; alg < 256; alg++ {
+		s.cube("Encrypt", alg)
+		s.cube("Mac", alg)
+	}
+	// seeded histories: few points per history so that points repeat on different cells and lengths
+	nh, maxLen := 400, 80
+	if ev.Thorough() {
+		nh, maxLen = 5000, 400
+	}
+	for h := 0; h < nh; h++ {
+		s.reset()
+		ncell := 1 + rng.Intn(3)
+		npts := 1 + rng.Intn(3)
+		pts := make([]HOp, npts)
+		for i := range pts {
+			pts[i] = HOp{Alg: rng.Intn(4), Key: rng.Intn(5), Cnt: rng.Intn(4), Bearer: rng.Intn(32), Dir: rng.Intn(2)}
+			if rng.Intn(3) > 0 {
+				pts[i].Alg = 1 + rng.Intn(3)
+			}
+		}
+		load := func(c int) {
+			n := rng.Intn(maxLen)
+			if rng.Intn(3) == 0 {
+				n = rng.Intn(9)
+			}
+			if rng.Intn(25) == 0 {
+				s.do(HOp{Op: "Load", Cell: c, Nil: true})
+				return
+			}
+			s.do(HOp{Op: "Load", Cell: c, Len: n, Pat: rng.Intn(4)})
+		}
+		for c := 1; c <= ncell; c++ {
+			load(c)
+		}
+		steps := 4 + rng.Intn(14)
+		for k := 0; k < steps; k++ {
+			o := pts[rng.Intn(npts)]
+			o.Cell = 1 + rng.Intn(ncell)
+			switch r := rng.Intn(20); {
+			case r < 11:
+				o.Op = "Encrypt"
+			case r < 16:
+				o.Op = "Mac"
+			case r < 17:
+				load(o.Cell)
+				continue
+			case r < 18: // invalid parameter
+				o.Op = []string{"Encrypt", "Mac"}[rng.Intn(2)]
+				switch rng.Intn(3) {
+				case 0:
+					o.Bearer = 32 + rng.Intn(224)
+				case 1:
+					o.Dir = 2 + rng.Intn(254)
+				default:
+					o.Alg = 4 + rng.Intn(252)
+				}
+			default:
+				o.Op = "Encrypt"
+			}
+			s.do(o)
+		}
+	}
+	s.w.Close()
+}
